@@ -24,7 +24,8 @@ pub struct PathCase {
 #[derive(Clone, Debug, Serialize, Deserialize)]
 pub struct Shaped {
     pub pc: PathCase,
-    /// bit 0: the server folds form bodies; bit 1: the request is a form POST; bit 2: query carrier; bit 3: the form body is empty
+    /// bit 0: the server folds form bodies; bit 1: the request is a form POST; bit 2: query carrier; bit 3: the form body is empty;
+    /// bits 4-5: a query string follows the path (1: plain, 2: with further '?' and '/' in it, 3: just '?')
     pub shape: u8,
 }
 
@@ -61,7 +62,7 @@ pub fn subs() -> Vec<Box<dyn AnySub>> {
             name: "e2e-all-options-and-shapes",
             quick: 15_000,
             thorough: 200_000,
-            strat: || (random_path(), 0u8..16).prop_map(|(pc, shape)| Shaped { pc, shape }).boxed(),
+            strat: || (random_path(), 0u8..64).prop_map(|(pc, shape)| Shaped { pc, shape }).boxed(),
             check: |sc, cc| check_e2e_shape(&sc.pc, sc.shape, cc),
         }),
     ]
@@ -242,6 +243,9 @@ pub struct LongPath {
     pub piece: String,
     pub count: usize,
     pub s3: bool,
+    /// what the path starts with ("/" unless it is to be an INVALID long path: "/../", "/../a", ...)
+    #[serde(default)]
+    pub lead: String,
 }
 
 /// Paths whose RAW or CANONICAL length sits at a power of two (2^8 ... 2^17) or just beside it, built from
@@ -260,8 +264,23 @@ pub fn long_path_list(t: Tier) -> Vec<LongPath> {
                 let n = (target - 1) / by;
                 for count in [n.saturating_sub(1), n, n + 1] {
                     for s3 in [false, true] {
-                        out.push(LongPath { piece: piece.to_string(), count, s3 });
+                        out.push(LongPath { piece: piece.to_string(), count, s3, lead: String::new() });
                     }
+                }
+            }
+        }
+    }
+    // long INVALID paths (they climb above the root), of multi-byte characters at every byte alignment: whatever echoes,
+    // abbreviates or escapes the offending path in its message must cope with them
+    for k in [6u32, 7, 8, 9, 10, 12, 16] {
+        if t == Tier::Quick && (k == 9 || k == 12) {
+            continue;
+        }
+        for lead in ["/../", "/../a", "/../ab", "/x/../../", "/%2E%2E/a", "/./../abc"] {
+            for (piece, raw) in [("\u{e9}", 2usize), ("\u{65e5}", 3), ("\u{1d11e}", 4), ("a\u{e9}", 3)] {
+                let n = (1usize << k) / raw;
+                for count in [n.saturating_sub(1), n, n + 1] {
+                    out.push(LongPath { piece: piece.to_string(), count, s3: false, lead: lead.to_string() });
                 }
             }
         }
@@ -270,16 +289,17 @@ pub fn long_path_list(t: Tier) -> Vec<LongPath> {
 }
 
 pub fn check_long_path(lp: &LongPath, cc: &mut CaseCtx) -> CheckResult {
-    let path = format!("/{}", lp.piece.repeat(lp.count));
+    let path = format!("{}{}", if lp.lead.is_empty() { "/" } else { lp.lead.as_str() }, lp.piece.repeat(lp.count));
+    cc.class_if(!lp.lead.is_empty(), "long-invalid-path");
     let mut inner = CaseCtx::default();
     let r = check_path(&PathCase { path: path.clone(), s3: lp.s3 }, &mut inner);
     cc.class("long-path");
     cc.class_if(path.len() > 21_845, "raw-longer-than-a-third-of-64KiB");
-    cc.nontrivial(digest_of(&[lp.piece.as_bytes(), &lp.count.to_le_bytes(), &[lp.s3 as u8]]));
+    cc.nontrivial(digest_of(&[lp.piece.as_bytes(), &lp.count.to_le_bytes(), &[lp.s3 as u8], lp.lead.as_bytes()]));
     if lp.count % 7 == 0 {
         cc.sample(json!({"path": format!("/ + {:?} x {}", lp.piece, lp.count), "raw_length": path.len(), "s3": lp.s3}));
     }
-    r.map_err(|f| Failure::new(&f.sig, format!("path '/' + {:?} x {} (raw {} bytes, s3={}): {}", lp.piece, lp.count, path.len(), lp.s3, f.msg.chars().take(300).collect::<String>())))?;
+    r.map_err(|f| Failure::new(&f.sig, format!("path {:?} + {:?} x {} (raw {} bytes, s3={}): {}", if lp.lead.is_empty() { "/" } else { lp.lead.as_str() }, lp.piece, lp.count, path.len(), lp.s3, f.msg.chars().take(300).collect::<String>())))?;
     // end to end where the http crate can carry the target
     if path.len() < 65_000 && lp.count % 2 == 0 {
         let mut inner = CaseCtx::default();
@@ -358,7 +378,8 @@ pub fn check_e2e_shape(pc: &PathCase, shape: u8, cc: &mut CaseCtx) -> CheckResul
     if !pc.path.starts_with('/') || pc.path.contains('?') || pc.path.contains('#') {
         return Ok(());
     }
-    let mut base = WireRequest { method: "GET".into(), uri: pc.path.clone(), version: 11, headers: vec![("Host".into(), B::from("h.example"))], body: B::default() };
+    let query = ["", "?a=1&b=2", "?q=why?&next=/login?user=x&caption=who?", "?"][(shape >> 4) as usize & 3];
+    let mut base = WireRequest { method: "GET".into(), uri: format!("{}{}", pc.path, query), version: 11, headers: vec![("Host".into(), B::from("h.example"))], body: B::default() };
     if shape & 2 != 0 {
         base.method = "POST".into();
         base.headers.push(("Content-Type".into(), B::from("application/x-www-form-urlencoded")));
@@ -374,6 +395,7 @@ pub fn check_e2e_shape(pc: &PathCase, shape: u8, cc: &mut CaseCtx) -> CheckResul
     let spec = SignSpec::basic(if shape & 4 != 0 { Carrier::Query } else { Carrier::Header }, "AKIDEXAMPLE", "secret", "20150830T123600Z");
     cc.class_if(shape & 3 == 3, "folded-form");
     cc.class_if(shape & 3 == 3 && pc.s3, "folded-form-in-s3-mode");
+    cc.class_if(shape >> 4 & 3 == 2, "question-marks-inside-the-query");
     let req = match sign(&base, &cfg, &spec) {
         Ok(s) => s.req,
         // invalid path: nothing to sign; send it with a dummy signature, the path rule must fire first
